@@ -528,6 +528,9 @@ def run(ctx, rep):
 
     c10.rule_thin_ctor(ctx, rep)  # R-FATLEN accepts "the length stored in the block": that equals the length the block was sized with only through the checked thin conversion
     rule_free_type(ctx, rep)
+    from . import c06
+
+    c06.rule_moveonce(ctx, rep)  # the storage of a consumed Box/Vec goes back to the allocator exactly as it was obtained (a zero-sized Box owns none)
     c07.rule_null(ctx, rep)
 
 
